@@ -66,22 +66,47 @@ def canMatchMultipleAux (s : Bytes) : Bool × Bool :=
 
 def canMatchMultiple (s : Bytes) : Bool := (canMatchMultipleAux s).1
 
-/-- mirrors the `for (const char * ptr = str; …)` loop of `StringMatcher::SetPattern` (after the fix
-    "a backslash in a wildcard pattern makes the next character literal"); first argument = `escapeMode` -/
-def translateLoop : Bool → Bytes → Bytes
-  | esc, [] => if esc then [cBs, cBs] else []
-  | true, c :: r => (if keepsBackslash c then [cBs, c] else [c]) ++ translateLoop false r
-  | false, c :: r =>
-    if c == cComma then cBar :: translateLoop false r
-    else if c == cDot then cBs :: cDot :: translateLoop false r
-    else if c == cPlus then cBs :: cPlus :: translateLoop false r
-    else if c == cStar then cDot :: cStar :: translateLoop false r
-    else if c == cQm then cDot :: translateLoop false r
-    else if c == cBs then translateLoop true r
-    else c :: translateLoop false r
+/-- `classStart` of `SetPattern`'s loop: `none` = -1 (not inside a character class); `some (n, caret)` = inside one,
+    `n` characters have been appended to `regexPattern` after its `[` and `caret` says whether the first of them
+    was `^` (`regexPattern[classStart+1] == '^'`) -/
+abbrev ClsSt := Option (Nat × Bool)
+
+/-- the state after appending `out` to `regexPattern` -/
+def clsEmit (st : ClsSt) (out : Bytes) : ClsSt :=
+  match st with
+  | none => none
+  | some (n, k) => some (n + out.length, k || (n == 0 && out.head? == some cCaret))
+
+/-- mirrors `if ((classStart >= 0)&&(c == ']')) {… if (regexPattern.Length() > firstMemberIdx) classStart = -1;}`:
+    a `]` ends the class unless it is its first member (`[]a]`, `[^]a]`) -/
+def clsClose (st : ClsSt) (c : UInt8) : ClsSt :=
+  match st with
+  | none => none
+  | some (n, k) => if c == cRBr && decide (n > (if k then 1 else 0)) then none else some (n, k)
+
+/-- mirrors the `for (const char * ptr = str; …)` loop of `StringMatcher::SetPattern` (with the fixes "a backslash in a
+    wildcard pattern makes the next character literal" and "the members of a character class are not translated");
+    first argument = `escapeMode`, second = `classStart` -/
+def translateLoop : Bool → ClsSt → Bytes → Bytes
+  | esc, _, [] => if esc then [cBs, cBs] else []
+  | true, st, c :: r =>
+    let pre : Bytes := if keepsBackslash c then [cBs] else []
+    pre ++ c :: translateLoop false (clsEmit (clsClose (clsEmit st pre) c) [c]) r
+  | false, some s, c :: r =>
+    if c == cBs then translateLoop true (some s) r
+    else c :: translateLoop false (clsEmit (clsClose (some s) c) [c]) r
+  | false, none, c :: r =>
+    if c == cLBr then cLBr :: translateLoop false (some (0, false)) r
+    else if c == cComma then cBar :: translateLoop false none r
+    else if c == cDot then cBs :: cDot :: translateLoop false none r
+    else if c == cPlus then cBs :: cPlus :: translateLoop false none r
+    else if c == cStar then cDot :: cStar :: translateLoop false none r
+    else if c == cQm then cDot :: translateLoop false none r
+    else if c == cBs then translateLoop true none r
+    else c :: translateLoop false none r
 
 /-- the translation of a simple pattern body: `"^(" + loop + ")$"` -/
-def translate (body : Bytes) : Bytes := Ere.anchored (translateLoop false body)
+def translate (body : Bytes) : Bytes := Ere.anchored (translateLoop false none body)
 
 /-! ## numeric ranges -/
 
@@ -191,11 +216,18 @@ abbrev Libc := Bytes → Option (Bytes → Bool)
 def GlibcOK (libc : Libc) : Prop :=
   ∀ e : Ere, e.WF = true → ∃ f, libc (Ere.anchored e.render) = some f ∧ ∀ s, f s = true ↔ Ere.Matches e s
 
-/-- mirrors the range branch of `StringMatcher::Match` (before negation) -/
+/-- mirrors `while(muscleInRange(*s,'0','9')) {id = muscleMin((id*10)+(*s-'0'), (uint64)MUSCLE_NO_LIMIT); s++;}`:
+    the value of a digit string, clamped (not wrapped) to `MUSCLE_NO_LIMIT` -/
+def satVal (s : Bytes) : Nat := s.foldl (fun acc c => min (acc * 10 + (c.toNat - 48)) noLimit) 0
+
+/-- mirrors the range branch of `StringMatcher::Match` (before negation): the subject must be a decimal number from
+    its first character to its last -/
 def matchRange (rs : List (Nat × Nat)) (s : Bytes) : Bool :=
-  match s with
-  | d :: _ => if isDigit d then let id := u32 (atoull s); rs.any (fun r => decide (r.1 ≤ id) && decide (id ≤ r.2)) else false
-  | [] => false
+  let digits := s.takeWhile isDigit
+  if !digits.isEmpty && (s.dropWhile isDigit).isEmpty then
+    let id := satVal digits
+    rs.any (fun r => decide (r.1 ≤ id) && decide (id ≤ r.2))
+  else false
 
 /-- mirrors `StringMatcher::Match(const char *)` -/
 def matchCompiled (libc : Libc) (c : Compiled) (s : Bytes) : Bool :=
